@@ -93,7 +93,8 @@ func checkDefs() map[string]*CheckDef {
 				r := []RunSpec{
 					mc("mc-n2-req-mix", "VerifC02", map[string]int{"N": 2, "POINTS": 5}, "start ok", "start failed"),
 					mc("mc-n3-single-req-mix", "VerifC02", map[string]int{"N": 3, "POINTS": 1}, "start ok", "start failed"),
-					rh("self-candidate", "VerifC06", map[string]int{"K": 1}, "start ok"),
+					rh("self-candidate", "VerifC06", map[string]int{"K": 1, "PRESET": 0}, "start ok"),
+					rh("slice-targets-sharing-an-address", "VerifC06", map[string]int{"K": 2, "PORDER": 0, "PRESET": 0}, "start ok", "several candidates"),
 					{Name: "ring-of-70", Pkg: fac, Entry: "VerifC02Ring", Params: map[string]int{"RING": 70}, MustCover: []string{"long cycle resolved"}, Opts: ExecOpts{Termination: true, MaxSteps: 5000000, MaxDepth: 4000}},
 				}
 				if tier == "thorough" {
@@ -159,7 +160,7 @@ func checkDefs() map[string]*CheckDef {
 		&CheckDef{ID: "C13", Title: "Runners",
 			Runs: func(tier string) []RunSpec {
 				return []RunSpec{
-					{Name: "run", Pkg: app, Entry: "VerifC13", Params: map[string]int{"N": tierPick(tier, 3, 4), "FAULTS": 1}, MustCover: []string{"all runners ok", "runner failed", "start-up fault"}},
+					{Name: "run", Pkg: app, Entry: "VerifC13", Params: map[string]int{"N": tierPick(tier, 3, 4), "FAULTS": 1}, MustCover: []string{"all runners ok", "runner failed", "start-up fault", "runner with a Priority marker but no Order"}},
 					{Name: "integration", Pkg: app, Entry: "VerifAppIntegration", Params: map[string]int{"N": tierPick(tier, 3, 4), "R": 2}, MustCover: []string{"start ok", "component init fails", "lazy runner", "initialization of a lazy runner fails"}, Opts: ExecOpts{Sched: "seq", PermuteRange: tier == "thorough", PermuteCoarse: true}},
 				}
 			},
@@ -171,6 +172,8 @@ func checkDefs() map[string]*CheckDef {
 				return []RunSpec{
 					{Name: "close", Pkg: app, Entry: "VerifC14", Params: map[string]int{"N": tierPick(tier, 5, 6)}, MustCover: []string{"several closers", "no closer"}, Opts: ExecOpts{Sched: "join", Races: true}},
 					{Name: "many-closers", Pkg: app, Entry: "VerifC14Many", MustCover: []string{"many closers"}, Opts: ExecOpts{Sched: "seq", Races: true}},
+					{Name: "closers-waiting-for-each-other", Pkg: app, Entry: "VerifC14Peers", MustCover: []string{"closers waiting for each other", "ordered closer waiting for a peer"}, Opts: ExecOpts{Sched: "join"}},
+					{Name: "integration", Pkg: app, Entry: "VerifAppIntegration", Params: map[string]int{"N": 1, "R": 1}, MustCover: []string{"closer that wires the App"}, Opts: ExecOpts{Sched: "seq"}},
 				}
 			},
 			LevelText: "Bounded symbolic model checking of the real App.Close with engine goroutines, WaitGroup and channel models under the adversarial-join schedule (spawned goroutines run only when the parent blocks or returns, in every order; the parent resumes as early as possible): at the instant Close returns every closer ran exactly once and returned, for 0..N closers and every subset that fails.",
@@ -215,12 +218,12 @@ func checkDefs() map[string]*CheckDef {
 		&CheckDef{ID: "C06", Title: "Type-directed injection",
 			Runs: func(tier string) []RunSpec {
 				return []RunSpec{
-					rh("types", "VerifC06", map[string]int{"K": tierPick(tier, 2, 3), "PORDER": 0}, "start ok", "start failed", "several candidates"),
-					rh("re-attempt-after-transient-failure", "VerifC06", map[string]int{"K": 2, "PORDER": 0, "FLAKY": 1}, "start ok", "creation re-attempted after a transient failure"),
-					rh("candidates-nominated-twice", "VerifC06", map[string]int{"K": 2, "PORDER": 0, "DUPPROC": 1}, "start ok", "candidates nominated by two processors"),
+					rh("types", "VerifC06", map[string]int{"K": tierPick(tier, 2, 3), "PORDER": 0}, "start ok", "start failed", "several candidates", "slice field pre-populated before start-up"),
+					rh("re-attempt-after-transient-failure", "VerifC06", map[string]int{"K": 2, "PORDER": 0, "FLAKY": 1, "PRESET": 0}, "start ok", "creation re-attempted after a transient failure"),
+					rh("candidates-nominated-twice", "VerifC06", map[string]int{"K": 2, "PORDER": 0, "DUPPROC": 1, "PRESET": 0}, "start ok", "candidates nominated by two processors"),
 					rh("sealed-interface", "VerifC06Sealed", nil, "sealed interface"),
 					rh("func-returns", "VerifC06Returns", map[string]int{"K": tierPick(tier, 2, 3)}, "both func points populated"),
-					rh("declining-user-processor", "VerifC06", map[string]int{"K": 1, "PORDER": 0, "PROC0": 1}, "start ok", "start failed"),
+					rh("declining-user-processor", "VerifC06", map[string]int{"K": 1, "PORDER": 0, "PROC0": 1, "PRESET": 0}, "start ok", "start failed"),
 					rh("same-named-types", "VerifC06SameName", map[string]int{"K": tierPick(tier, 2, 3)}, "two same-named interface types"),
 				}
 			},
@@ -235,6 +238,8 @@ func checkDefs() map[string]*CheckDef {
 					rh("peers-of-the-holders-type", "VerifC07Peers", nil, "peer of the holder's own type"),
 					rh("several-named-points", "VerifC07Fields", nil, "absent optional name next to other points"),
 					rh("symbolic-names", "VerifC07Symbolic", nil, "first name requested", "second name requested", "no such name"),
+					rh("declining-user-processor", "VerifC07", map[string]int{"K": 1, "PROC0": 1, "PORDER": 0}, "named component found"),
+					mc("failing-candidate-behind-a-point", "VerifC09MC", map[string]int{"N": 2, "POINTS": 5, "FAULTS": 2}, "fault injected"),
 				}
 			},
 			LevelText: "Bounded symbolic model checking of the by-name branch of dependencyAware, GetMetaByName, the real SingletonRegistry.RegisterSingleton/GetComponentName (names as symbolic bytes), furtherMatching and Inject: the field receives exactly the component registered under the requested name, an absent or incompatible name is an error for a required point and leaves an optional point untouched (never a panic), two distinct components are never both retrievable under one name.",
@@ -247,6 +252,8 @@ func checkDefs() map[string]*CheckDef {
 					rh("func-tag-fields", "VerifC08", map[string]int{"K": 2, "ONLY": 4, "NQ": 1, "PORDER": 0}, "func-tag points", "unique primary"),
 					rh("pointer-typed-point", "VerifC08", map[string]int{"K": 3, "ONLY": 6, "NQ": 1, "PORDER": 0}, "pointer-typed point", "unique unnamed"),
 					rh("three-candidates", "VerifC08", map[string]int{"K": 3, "ONLY": 5, "NQ": 1, "PORDER": 0}, "unique primary", "unique unnamed"),
+					rh("optional-qualified-point", "VerifC09OptionalQualified", map[string]int{"K": 2}, "optional qualified point without a match"),
+					rhc("candidates-sharing-an-address", "VerifC06", map[string]int{"K": 2, "PORDER": 1, "PRESET": 0}, "start ok", "several candidates"),
 				}
 			},
 			LevelText: "Bounded symbolic model checking of the real furtherMatching processor (filterDependencies), TagArg.Has/Find and the by-type processors on holders with 2-3 wire fields (single, slice, an optional field without any candidate placed first): qualifiers of candidates and requested qualifier sets are symbolic bytes, primary/unnamed/named attributes and required bits are explored; each field is checked against an order-free per-field specification (only qualifying candidates, unique Primary wins, else unique unnamed, ties only inside the top rank).",
@@ -264,8 +271,9 @@ func checkDefs() map[string]*CheckDef {
 					{Name: "loaders", Pkg: ioc + "/configure", Entry: "VerifC15Load", Params: map[string]int{"N": 3}, MustCover: []string{"loader failed"}},
 					{Name: "integration", Pkg: app, Entry: "VerifAppIntegration", Params: map[string]int{"N": 2, "R": 2}, MustCover: []string{"component init fails", "initialization of a lazy runner fails"}, Opts: ExecOpts{Sched: "seq"}},
 					{Name: "failing-definition-scanners", Pkg: fac, Entry: "VerifC20Scan", Params: map[string]int{"N": 3}, MustCover: []string{"several scanners fail at the same time"}, Opts: ExecOpts{Sched: "join", Races: true}},
-					rh("declining-user-processor", "VerifC06", map[string]int{"K": 1, "PORDER": 0, "PROC0": 1}, "start ok", "start failed"),
+					rh("declining-user-processor", "VerifC06", map[string]int{"K": 1, "PORDER": 0, "PROC0": 1, "PRESET": 0}, "start ok", "start failed"),
 					{Name: "configuration-values", Pkg: prc, Entry: "VerifC09Values", MustCover: []string{"required value missing", "optional value missing", "value present"}},
+					rh("optional-qualified-point", "VerifC09OptionalQualified", map[string]int{"K": 2}, "optional qualified point without a match", "required qualified point without a match"),
 					{Name: "value-sequence", Pkg: prc, Entry: "VerifC09ValueSequence", MustCover: []string{"a required value is missing after optional ones", "all required values present"}},
 				}
 			},
@@ -275,7 +283,7 @@ func checkDefs() map[string]*CheckDef {
 		&CheckDef{ID: "C10", Title: "Order independence",
 			Runs: func(tier string) []RunSpec {
 				return []RunSpec{
-					rhc("by-type", "VerifC06", map[string]int{"K": 2, "PORDER": 1}, "start ok", "several candidates"),
+					rhc("by-type", "VerifC06", map[string]int{"K": 2, "PORDER": 1, "PRESET": 0}, "start ok", "several candidates"),
 					rhc("by-name", "VerifC07", map[string]int{"K": 2}, "named component found"),
 					rh("qualified", "VerifC08", map[string]int{"K": 2, "SHAPES": tierPick(tier, 2, 4), "NQ": 1, "PORDER": 1}, "unique primary", "unique unnamed"),
 					{Name: "registration", Pkg: fac, Entry: "VerifC07Register", Params: map[string]int{"K": 3, "L": 1}, MustCover: []string{"duplicate rejected"}, Opts: ExecOpts{PermuteRange: true}},
@@ -295,6 +303,7 @@ func checkDefs() map[string]*CheckDef {
 					{Name: "string-values", Pkg: prc, Entry: "VerifC17String", Params: map[string]int{"N": tierPick(tier, 4, 5)}, MustCover: []string{"bound"}},
 					{Name: "scalar-family", Pkg: prc, Entry: "VerifC17Scalars", MustCover: []string{"scalars bound"}},
 					{Name: "binder-after-set", Pkg: ioc + "/configure", Entry: "VerifC15Merge", Params: map[string]int{"N": 2}, MustCover: []string{"merged", "subtree replaced at run time"}},
+					{Name: "nested-placeholder", Pkg: prc, Entry: "VerifC16Nested", MustCover: []string{"nested key present", "nested key absent"}},
 				}
 			},
 			LevelText: "Bounded symbolic model checking of the real valueAware (value tag and prop shorthand), propertiesAware (prefix) and configQuote processors, Property.Unmarshall/reflectx.SetValue and strconv2.ParseAny/FormatAny: for every ASCII string of up to N bytes as the configured value, the string fields bound through value:\"${k}\", prop:\"k\", a value-tag literal and prefix:\"k\" all equal the configured string - outside five listed finding classes, each of which is reproduced natively on every run.",
@@ -307,6 +316,7 @@ func checkDefs() map[string]*CheckDef {
 					{Name: "expression-data-flow", Pkg: prc, Entry: "VerifC18Expr", MustCover: []string{"evaluated", "literal text before the expression", "placeholder nested in a placeholder inside the expression"}},
 					{Name: "numeric-expression-family", Pkg: prc, Entry: "VerifC18ExprNumbers", MustCover: []string{"numeric expression evaluated", "boolean result"}},
 					{Name: "validation-glue", Pkg: prc, Entry: "VerifC18Validate", Params: map[string]int{"N": tierPick(tier, 3, 4)}, MustCover: []string{"constraint violated", "constraint satisfied", "validated value bound by prefix"}},
+					{Name: "pointer-validation", Pkg: prc, Entry: "VerifC18ValidatePointer", MustCover: []string{"pointer constraint violated", "pointer constraint satisfied"}},
 					{Name: "several-expressions", Pkg: prc, Entry: "VerifC18MultiExpr", MustCover: []string{"several expressions in one tag"}},
 					{Name: "struct-validation", Pkg: prc, Entry: "VerifC18ValidateStruct", MustCover: []string{"struct constraint violated", "struct constraint satisfied", "only the required nested struct is empty"}},
 				}
@@ -318,7 +328,8 @@ func checkDefs() map[string]*CheckDef {
 	defs = append(defs,
 		&CheckDef{ID: "C11", Title: "Tag scanning through embedded structs, frame condition",
 			Runs: func(tier string) []RunSpec {
-				return []RunSpec{{Name: "shapes", Pkg: fac, Entry: "VerifC11", Params: map[string]int{"SHAPES": 10}, MustCover: []string{"see-through embedding", "opaque embedding", "same type embedded twice", "same-named embedded types"}, Opts: ExecOpts{PermuteRange: tier == "thorough"}}}
+				return []RunSpec{{Name: "shapes", Pkg: fac, Entry: "VerifC11", Params: map[string]int{"SHAPES": 10}, MustCover: []string{"see-through embedding", "opaque embedding", "same type embedded twice", "same-named embedded types"}, Opts: ExecOpts{PermuteRange: tier == "thorough"}},
+					{Name: "custom-node-type", Pkg: prc, Entry: "VerifC11CustomNode", MustCover: []string{"custom processor sharing a built-in node type"}}}
 			},
 			LevelText: "Bounded symbolic model checking of NewMeta/scanFields/ForEachFieldV2, the real tag-scan processors (wire, func, value+prop, prefix, logger) plus a custom-tag processor, and the real populate path, on a fixed family of struct shapes (flat; the same tagged block embedded by value at depth 1, 2, 3; embedded struct with an unexported type name, also in the middle of the chain; embedded struct that itself carries a tag; embedded pointer-to-struct) with SYMBOLIC initial contents of every field and symbolic configured values: per shape the property list and every bound value equal those of the flat twin, the custom processor receives exactly its field with value and arguments, and unexported / untagged / foreign-tagged / unexported-but-tagged fields are bit-identical afterwards.",
 			LevelNote: "Reduced claim: struct types are program text, not solver data - the quantification over 'all struct shapes' is NOT addressed, only the 8 shapes listed. The reflect model's CanSet/embedding rules are validated by native replay of the sampled paths on exactly these shapes.",
@@ -332,6 +343,7 @@ func checkDefs() map[string]*CheckDef {
 					{Name: "range-with-writer", Pkg: ioc + "/util/sync2", Entry: "VerifC20Range", MustCover: []string{"range history checked", "Range concurrent with a Delete"}, Opts: il(tierPick(tier, 3, 5))},
 					{Name: "set", Pkg: ioc + "/util/list", Entry: "VerifC20Set", Params: map[string]int{"OPS": tierPick(tier, 1, 2)}, MustCover: []string{"set history checked", "generic set"}, Opts: il(2)},
 					{Name: "scan-phase-races", Pkg: fac, Entry: "VerifC20Scan", Params: map[string]int{"N": tierPick(tier, 3, 5)}, MustCover: []string{"several scanners fail at the same time"}, Opts: ExecOpts{Sched: "join", Races: true, RealSyslog: true}},
+					{Name: "scan-shared-tag-text", Pkg: fac, Entry: "VerifC20Scan", Params: map[string]int{"N": tierPick(tier, 1, 2), "SHARED": 1}, MustCover: []string{"components sharing a tag text scanned concurrently"}, Opts: ExecOpts{Sched: "join", Races: true, RealSyslog: true}},
 					{Name: "close-races", Pkg: app, Entry: "VerifC14", Params: map[string]int{"N": 3}, MustCover: []string{"several closers"}, Opts: ExecOpts{Sched: "join", Races: true, RealSyslog: true}},
 				}
 			},
@@ -341,9 +353,11 @@ func checkDefs() map[string]*CheckDef {
 	)
 	// the integration graph run (real App.initiate + run) is cheap and serves several properties
 	graphRun := func(tier string, coarse bool) RunSpec {
-		r := RunSpec{Name: "integration-graph", Pkg: app, Entry: "VerifAppGraph", MustCover: []string{"start ok", "an Init fails", "required dependency missing"}, Opts: ExecOpts{Sched: "seq", Termination: true, MaxSteps: 3000000}}
+		r := RunSpec{Name: "integration-graph", Pkg: app, Entry: "VerifAppGraph", MustCover: []string{"start ok", "an Init fails", "required dependency missing", "a point wired by hand before start-up", "a by-name point holding a built-in default before start-up"}, Opts: ExecOpts{Sched: "seq", Termination: true, MaxSteps: 3000000}}
 		if coarse {
 			r.Name = "integration-graph-orders"
+			r.Params = map[string]int{"FIXED": 1}
+			r.MustCover = []string{"start ok"}
 			r.Opts.PermuteRange, r.Opts.PermuteCoarse = true, true
 		}
 		return r
@@ -364,11 +378,7 @@ func checkDefs() map[string]*CheckDef {
 		case "C10":
 			inner := d.Runs
 			d.Runs = func(tier string) []RunSpec {
-				r := inner(tier)
-				if tier == "thorough" {
-					r = append(r, graphRun(tier, true))
-				}
-				return r
+				return append(inner(tier), graphRun(tier, true))
 			}
 		}
 	}
